@@ -95,10 +95,17 @@ class G:
             return self.logical(depth - 1)
         if r < 0.6:
             return cell(self.rng.randrange(4))
-        if r < 0.85:
+        if r < 0.75:
             return ('bin', self.rng.choice(['>', '<', '=', '>=', '<>']),
                     cell(self.rng.randrange(4)),
                     L(self.rng.choice([0, 1, 2])))
+        if r < 0.85:
+            # a comparison of a number the numeric library produced (SIGN,
+            # ABS give numpy scalars; the truth value then is numpy's)
+            return ('bin', self.rng.choice(['>', '<', '>=', '<=']),
+                    ('call', self.rng.choice(['SIGN', 'ABS']),
+                     [cell(self.rng.randrange(4))]),
+                    L(self.rng.choice([0, 1])))
         return L(self.rng.choice([True, False, 0, 3, 1e-17]))
 
     def logical(self, depth):
